@@ -98,6 +98,7 @@ uint64_t vrt_alloc_count(void) { return 0; }
 uint64_t vrt_live_blocks(void) { return 0; }
 int vrt_active(void) { return 1; }
 int64_t *vrt_scratch(void) { return g_scratch; }
+void __tsan_atomic_thread_fence(int) {}
 void vrt_register(const char *, vrt_scenario_fn, void *) {}
 int vrt_main(int, char **) { return 2; }
 }
